@@ -354,69 +354,35 @@ class Shape(Coordinate):
 
         angle_rad = np.pi * angle / 180.
 
-        # Which point we get if we walk a distance of cell radius in the
-        # desired angle direction?
-        point = cast(complex, self.pos + self._radius * np.exp(angle_rad * 1j))
+        # Unitary vector pointing in the desired direction
+        direction = np.exp(1j * angle_rad)
 
-        # Calculates the distance of this point to all vertices and finds
-        # the closest vertices
-        dists = np.abs(self.vertices - point)
-        # Get the two closest vertices from point
-        closest_vertices = self.vertices[np.argsort(dists)[:2]]
+        # Each edge of the shape goes from one vertex to the next one (the
+        # last edge goes back to the first vertex)
+        vertices = self.vertices
+        edges = np.roll(vertices, -1) - vertices
+        to_vertices = vertices - self.pos
 
-        # The equation of a straight line is given by "y = ax + b". We have
-        # two points in this line (the two closest vertices) and we can use
-        # them to find 'a' and 'b'. First let's find the different of these
-        # two closest vertexes
-        diff = closest_vertices[0] - closest_vertices[1]
+        # We start from self.pos and walk a step "t" in the desired
+        # direction until we reach the point "vertex + s * edge" of some
+        # edge (with "s" between 0 and 1). That is, for each edge we solve
+        #    self.pos + t * direction = vertex + s * edge
+        # for "t" and "s" using the cross product of 2D vectors.
+        with np.errstate(divide='ignore', invalid='ignore'):
+            denominator = (direction.real * edges.imag -
+                           direction.imag * edges.real)
+            t = (to_vertices.real * edges.imag -
+                 to_vertices.imag * edges.real) / denominator
+            s = (to_vertices.real * direction.imag -
+                 to_vertices.imag * direction.real) / denominator
 
-        # xxxxx Special case for a vertical line xxxxxxxxxxxxxxxxxxxxxxxxxx
-        # noinspection PyTypeChecker
-        if np.allclose(diff.real, 0.0, atol=1e-15):
-            # If the the real part of diff is equal to zero, that means
-            # that the straight line is actually a vertical
-            # line. Therefore, all we need to do to get the border point is
-            # to start from the shape's center and go with the desired
-            # angle until the value in the 'x' axis is equivalent to
-            # closest_vertices[0].real.
-            adjacent_side = closest_vertices[0].real - self.pos.real
-            side = np.tan(angle_rad) * adjacent_side
-            point = self.pos + adjacent_side + 1j * side
-            # Now all that is left to do is apply the ratio, which only
-            # means that the returned point is a linear combination between
-            # the shape's central position and the point at the border of
-            # the shape
+        # Only the edges that are really crossed are of interest (edges
+        # parallel to the direction yield non finite values)
+        tol = 1e-12
+        crossed = np.isfinite(t) & (t > 0) & (s >= -tol) & (s <= 1 + tol)
 
-            return (1 - ratio) * self.pos + ratio * point
-        # xxxxxxxxxxxxxxxxxxxxxxxxxxxxxxxxxxxxxxxxxxxxxxxxxxxxxxxxxxxxxxxxx
-
-        # Calculates the 'a' and 'b' in the line equation "y=ax+b"
-        a = diff.imag / diff.real
-        b = closest_vertices[1].imag - a * closest_vertices[1].real
-
-        # Note that is we start from self.pos and walk in the direction
-        # pointed by the angle by "some step" we should reach the line
-        # where the two closest vertexes are. If we can find this "step"
-        # then we will get our desired point.
-        # That is, for the step "z" we have
-        #    self.pos + np.exp(1j * angle_rad) * z = complex(x, a * x + b)
-        # Which we can write as the system of equations
-        #    self.pos.real + np.exp(1j * angle).real * z = x
-        #    self.pos.imag + np.exp(1j * angle).imag * z = a * x + b
-        # Lets create some aliases for the constants so that
-        #     A + B * z = x
-        #     C + D * z = a * x + b
-        A = self.pos.real
-        B = np.exp(1j * angle_rad).real
-        C = self.pos.imag
-        D = np.exp(1j * angle_rad).imag
-        # Through some algebraic manipulation the correct step "z" is given
-        # by
-        z = (A * a + b - C) / (D - (a * B))
-
-        # Now we can finally find the desired point at the border of the
-        # shape
-        point = self.pos + np.exp(1j * angle_rad) * z
+        # The point at the border of the shape
+        point = self.pos + np.min(t[crossed]) * direction
 
         # Now all that is left to do is apply the ratio, which only means
         # that the returned point is a linear combination between the
